@@ -52,8 +52,10 @@ FLAVOURS = {
     "plain": "-O1 -g",
     # the library with its network option (HttpSink), for drv_http
     "net": "-O1 -g",
+    # the library built without thread support (QTLOGGER_NO_THREAD): the logger is synchronous by construction
+    "nothread": "-O1 -g -DQTLOGGER_NO_THREAD",
 }
-FLAVOUR_CMAKE = {"net": ["-DQTLOGGER_NETWORK=ON"]}
+FLAVOUR_CMAKE = {"net": ["-DQTLOGGER_NETWORK=ON"], "nothread": ["-DQTLOGGER_NO_THREAD=ON"]}
 
 
 class _Lock:
